@@ -90,7 +90,7 @@ def make_cv(c):
     if c["kind"] == "kfold":
         return KFold(n_splits=c["k"])
     if c["kind"] == "single":
-        return SingleSplit(test_size=0.34, random_state=c["rs"])
+        return SingleSplit(test_size=0.34, random_state=c["rs"], shuffle=c.get("shuffle", True))
     return PresplitFilesCV()
 
 
@@ -121,6 +121,12 @@ def expected_records(case):
             Est = doubles.CountingClassifier if case["task"] == "tsc" else doubles.CountingRegressor
             if case["cv"]["kind"] == "presplit":
                 folds = [(np.flatnonzero(np.asarray(df.index) == "train"), np.flatnonzero(np.asarray(df.index) == "test"))]
+            elif case["cv"]["kind"] == "single":
+                # the documented meaning: scikit-learn's train_test_split of the row positions
+                from sklearn.model_selection import train_test_split
+
+                folds = [tuple(train_test_split(np.arange(len(df)), test_size=0.34, random_state=case["cv"]["rs"],
+                                                shuffle=case["cv"].get("shuffle", True)))]
             else:
                 folds = list(make_cv(case["cv"]).split(df, y))
             for fold, (tr, te) in enumerate(folds):
@@ -399,6 +405,7 @@ def cases(draw, all_points=True):
         cv["k"] = draw(st.integers(2, 3))
     if cvk == "single":
         cv["rs"] = draw(st.integers(0, 100))
+        cv["shuffle"] = draw(st.booleans())
     layout = draw(st.sampled_from(["train_first", "interleaved", "test_first"]))
     store = draw(st.sampled_from(["disk", "disk", "disk", "ram"]))
     return {
